@@ -539,12 +539,16 @@ impl<'a> Repr<'a> {
                 let opt_len = addr.len() + 2;
                 opt.set_data_len(opt_len.div_ceil(8) as u8); // round to next multiple of 8.
                 opt.set_link_layer_addr(addr);
+                // zero the padding up to the next multiple of 8
+                opt.buffer.as_mut()[opt_len..opt_len.div_ceil(8) * 8].fill(0);
             }
             Repr::TargetLinkLayerAddr(addr) => {
                 opt.set_option_type(Type::TargetLinkLayerAddr);
                 let opt_len = addr.len() + 2;
                 opt.set_data_len(opt_len.div_ceil(8) as u8); // round to next multiple of 8.
                 opt.set_link_layer_addr(addr);
+                // zero the padding up to the next multiple of 8
+                opt.buffer.as_mut()[opt_len..opt_len.div_ceil(8) * 8].fill(0);
             }
             Repr::PrefixInformation(PrefixInformation {
                 prefix_len,
@@ -572,10 +576,15 @@ impl<'a> Repr<'a> {
                 let mut ip_packet = Ipv6Packet::new_unchecked(&mut packet);
                 header.emit(&mut ip_packet);
                 ip_packet.payload_mut().copy_from_slice(data);
+                // zero the padding up to the next multiple of 8
+                let opt_len = 8 + header.buffer_len() + data.len();
+                opt.buffer.as_mut()[opt_len..opt_len.div_ceil(8) * 8].fill(0);
             }
             Repr::Mtu(mtu) => {
                 opt.set_option_type(Type::Mtu);
                 opt.set_data_len(1);
+                // bytes 2..4 are reserved
+                opt.buffer.as_mut()[2..4].fill(0);
                 opt.set_mtu(mtu);
             }
             Repr::Unknown {
